@@ -613,7 +613,7 @@ def rel_key(rng, frm_names, to_names, key):
     return k
 
 
-def gen_R(rng, n, out, expect):
+def gen_R(rng, n, out, expect, p_long=0.3):
     for _ in range(n):
         ids, keyn = Counter(), Counter()
         tw, entries = gen_site(rng, rng.choice((1, 2, 3, 3, 4)), ids, keyn)
@@ -648,7 +648,7 @@ def gen_R(rng, n, out, expect):
                 for m in reversed(e["chain"]):
                     us.insert(0, tpl_inst(m["tpl"], [us[0]], kv))
                 return us
-            if params and rng.random() < 0.3:
+            if params and rng.random() < p_long:
                 # long URLs: one parameter is stretched so that root+URL has a chosen length (the mapper builds the URL in a
                 # 128-byte stack buffer that moves to the heap and doubles: every boundary, at every alignment) or is just long
                 j = rng.randrange(len(params))
@@ -729,7 +729,8 @@ def gen_cases(c, scale):
     gen_P(rng, 60 * scale, out)
     gen_T(rng, 400 * scale, out)
     gen_U(rng, 120 * scale, out)
-    gen_R(rng, 120 * scale, out, expect)
+    # long URLs make long case lines (the raw engine answers for every pattern x substring): keep their number bounded in the thorough tier
+    gen_R(rng, 120 * scale, out, expect, p_long=0.3 if scale == 1 else 0.9 / scale)
     return out, expect
 
 
@@ -767,7 +768,7 @@ def main():
                       "request method, and the arguments of mount_point::match(char const*…) / applications_pool, are C strings by type",
                       "url_dispatcher::map()'s typed parameter parsing (parse_url_parameter, encoding validation) is represented by a generic handler that declines on a configured group value",
                       "applications_pool: both lists are modelled (pools/factories, then classic asynchronous intrusive_ptr mounts with dead ones purged); pool life-cycle beyond 'the application died' is not"]
-    scale = 40 if c.tier == "thorough" else 1
+    scale = 30 if c.tier == "thorough" else 1
 
     c.translate("c20.py")
     proved = c.prove(["Cppcms.C20.Props"], OBLIGATIONS, exe="c20_model")
@@ -822,6 +823,7 @@ def main():
         for cs in full:
             dist[cs.split()[0]] = dist.get(cs.split()[0], 0) + 1
         c.extra_cov["case_kinds"] = dist
+        c.extra_cov["case_file_bytes"] = sum(len(x) + 1 for x in full)
         branch = {"handler_ran": 0, "generic_declined": 0, "not_found_404": 0, "child_404": 0, "no_context_exception": 0, "cfg_error": 0,
                   "mapper_ok": 0, "mapper_error": 0, "tpl_error": 0}
         for cs, o in zip(full, out_m):
